@@ -58,6 +58,11 @@ theorem roundtrip_sqlite : RoundTrip Prec_sqlite.P := fun t e h => print_parse_r
 theorem roundtrip_mysql : RoundTrip Prec_mysql.P := fun t e h => print_parse_roundtrip _ (by decide) t e h
 theorem roundtrip_mindsdb : RoundTrip Prec_mindsdb.P := fun t e h => print_parse_roundtrip _ (by decide) t e h
 
+-- [review] precision: `missingOps` (tools/extract/more.py) lists only operators whose TOKEN exists in the dialect's
+-- terminal set but which have no `expr o expr` production; an operator whose token the dialect does not have at
+-- all is not reported (sqlite / mysql have no `NOT_LIKE` token and reject `a NOT LIKE b`; their fragment `F` simply
+-- does not contain it).  So this pins "no listed operator token is left without a production", not "each dialect
+-- has all listed operators".
 /-- every operator the property lists has a production in each dialect -/
 theorem ops_present : Prec_sqlite.missingOps = [] ∧ Prec_mysql.missingOps = [] ∧ Prec_mindsdb.missingOps = [] := by
   decide
@@ -65,5 +70,51 @@ theorem ops_present : Prec_sqlite.missingOps = [] ∧ Prec_mysql.missingOps = []
 /-! non-vacuity: a concrete fragment tree of the mindsdb dialect (`a OR b AND c`, operators by their
 generated ids) satisfies the hypotheses and is regrouped correctly -/
 example : Prec_mindsdb.F.bins ≠ [] := by decide
+
+-- [review] NOTE: the `example` above proves only `F.bins ≠ []`, not what its doc-comment announces; the
+-- concrete instances follow.
+
+/-! [review] concrete non-vacuity of `C03_<d>` (the example above only shows `F.bins ≠ []`).
+mindsdb operator ids: OR 131, AND 5, NOT 119, `>` 68, `+` 141, `*` 176, `-` 111, BETWEEN 10;
+sqlite / mysql: `>` 52, `+` 100, `%` 80, `=` 40, `-` 79, AND 4, BETWEEN 8. -/
+
+-- [review] `a OR b AND c` (tree `a OR (b AND c)`): in the fragment, needs no parentheses, and the machine
+-- regroups the FLAT token list to exactly this tree
+example :
+    let e := Expr.bin 131 (.atom 0) (.bin 5 (.atom 1) (.atom 2))
+    inFragment Prec_mindsdb.F e = true ∧ addParens Prec_mindsdb.S e = e ∧
+    print Prec_mindsdb.P e = [.atom 0, .op 131, .atom 1, .op 5, .atom 2] ∧
+    parse Prec_mindsdb.P [.atom 0, .op 131, .atom 1, .op 5, .atom 2] [] none = some e := by decide
+-- [review] the other grouping `(a OR b) AND c` gets its parentheses from `addParens` and is kept
+example :
+    let e := Expr.bin 5 (.bin 131 (.atom 0) (.atom 1)) (.atom 2)
+    inFragment Prec_mindsdb.F e = true ∧
+    addParens Prec_mindsdb.S e = .bin 5 (.paren (.bin 131 (.atom 0) (.atom 1))) (.atom 2) ∧
+    parse Prec_mindsdb.P (print Prec_mindsdb.P (addParens Prec_mindsdb.S e)) [] none =
+      some (addParens Prec_mindsdb.S e) := by decide
+-- [review] `a + b * c AND NOT d > - e`  ↦  `(a + (b * c)) AND (NOT (d > (- e)))`
+example : parse Prec_mindsdb.P
+      [.atom 0, .op 141, .atom 1, .op 176, .atom 2, .op 5, .op 119, .atom 3, .op 68, .op 111, .atom 4] [] none =
+    some (.bin 5 (.bin 141 (.atom 0) (.bin 176 (.atom 1) (.atom 2)))
+                 (.pre 119 (.bin 68 (.atom 3) (.pre 111 (.atom 4))))) := by decide
+-- [review] the two defects named in the property text, on the (repaired) sqlite and mysql precedence data:
+-- `a > b + c` ↦ `a > (b + c)` and `a % b = c` ↦ `(a % b) = c`
+example : parse Prec_sqlite.P [.atom 0, .op 52, .atom 1, .op 100, .atom 2] [] none =
+    some (.bin 52 (.atom 0) (.bin 100 (.atom 1) (.atom 2))) := by decide
+example : parse Prec_sqlite.P [.atom 0, .op 80, .atom 1, .op 40, .atom 2] [] none =
+    some (.bin 40 (.bin 80 (.atom 0) (.atom 1)) (.atom 2)) := by decide
+example : parse Prec_mysql.P [.atom 0, .op 52, .atom 1, .op 100, .atom 2] [] none =
+    some (.bin 52 (.atom 0) (.bin 100 (.atom 1) (.atom 2))) := by decide
+example : parse Prec_mysql.P [.atom 0, .op 80, .atom 1, .op 40, .atom 2] [] none =
+    some (.bin 40 (.bin 80 (.atom 0) (.atom 1)) (.atom 2)) := by decide
+-- [review] left-associative chain `a - b - c` and `a BETWEEN b AND c AND d` ↦ `(a BETWEEN b AND c) AND d`
+example : parse Prec_sqlite.P [.atom 0, .op 79, .atom 1, .op 79, .atom 2] [] none =
+    some (.bin 79 (.bin 79 (.atom 0) (.atom 1)) (.atom 2)) := by decide
+example : parse Prec_mindsdb.P [.atom 0, .op 10, .atom 1, .op 5, .atom 2, .op 5, .atom 3] [] none =
+    some (.bin 5 (.btw (.atom 0) (.atom 1) (.atom 2)) (.atom 3)) := by decide
+-- [review] the side condition of the property is what `addParens` encodes and no more: a comparison directly under
+-- a comparison gets parentheses (`a < b > c` is printed `(a < b) > c`), nothing else about it is assumed
+example : addParens Prec_mindsdb.S (.bin 68 (.bin 103 (.atom 0) (.atom 1)) (.atom 2)) =
+    .bin 68 (.paren (.bin 103 (.atom 0) (.atom 1))) (.atom 2) := by decide
 
 end MindsVerif.Props.C03
